@@ -10,14 +10,16 @@ open Car
     setting with `MaxAllowedSectionSize ≤ 32 MiB` (go-cid's stream cap, which makes the two CID
     decoders accept the same CIDs): if the hash-verifying section scan succeeds with a clean end,
     Inspect's own full-validation walk succeeds as well and has seen exactly the scanned blocks with
-    their true data lengths. -/
-theorem scan_implies_inspect (H : HashFn) (o : ReadOpts) (ht : o.trusted = false)
+    their true data lengths. `H.Uniform`: whether a hash function is registered and how long its
+    output is does not depend on the data (true of every go-multihash function; Inspect asks the
+    first question before it reads a block, the scan after). -/
+theorem scan_implies_inspect (H : HashFn) (hU : H.Uniform) (o : ReadOpts) (ht : o.trusted = false)
     (hcap : o.maxSection ≤ maxDigestAlloc) (w : Bytes) (bs : List Block)
     (h : scanSections H o w = (bs, .eof)) :
     ∃ lens : List Nat, lens.length = bs.length ∧
       inspectLoop H o true (w.length + 1) w []
         = .ok ((bs.zip lens).map fun p => ⟨p.1.cid, p.2, p.1.data.length⟩) := by
-  have := scan_implies_inspectLoop H o ht hcap (w.length + 1) w bs [] h
+  have := scan_implies_inspectLoop H hU o ht hcap (w.length + 1) w bs [] h
   simpa using this
 
 /-- (1a) The two CID decoders used by the scan (`CidFromBytes`) and by Inspect (`CidFromReader`)
@@ -34,7 +36,7 @@ def expectedStats (version : Nat) (hdr : V2Header) (roots : List Cid) (bs : List
 /-- (2) On every valid CARv1 (any roots, any honest well-formed blocks) full-validation inspection
     succeeds and every statistic is the one computed from the block list: version, roots,
     roots-present, block count, min/avg/max CID and block lengths, per-codec and per-hash counts. -/
-theorem inspect_valid_v1 (H : HashFn) (o : ReadOpts) (validate : Bool) (roots : Option (List Cid)) (bs : List Block)
+theorem inspect_valid_v1 (H : HashFn) (hU : H.Uniform) (o : ReadOpts) (validate : Bool) (roots : Option (List Cid)) (bs : List Block)
     (hwf : (CarHeader.mk roots 1).wf) (hmax : (encodeHeaderBody ⟨roots, 1⟩).length ≤ o.maxHeader)
     (h63 : (encodeHeaderBody ⟨roots, 1⟩).length < 2 ^ 63)
     (hok : ∀ b ∈ bs, b.wf o.maxSection ∧ b.cid.digest.length ≤ maxDigestAlloc ∧
@@ -45,10 +47,14 @@ theorem inspect_valid_v1 (H : HashFn) (o : ReadOpts) (validate : Bool) (roots : 
   simp only [ne_eq, not_true_eq_false, false_and, ↓reduceIte, show ¬ ((1 : Nat) = 2) by decide]
   rw [readHeader_encode o.maxHeader ⟨roots, 1⟩ _ hwf hmax h63]
   simp only [false_and, ↓reduceIte]
-  have := inspectLoop_sections H o validate bs [] ((sectionsBytes bs).length + 1)
+  have := inspectLoop_sections H hU o validate bs [] ((sectionsBytes bs).length + 1)
     (by have := sectionsBytes_length_ge bs; omega) hok
   rw [this]
   simp [expectedStats, CarHeader.rootList]
+
+/-- Non-vacuity of `Uniform`: a family with one fixed-length function is uniform. -/
+example : HashFn.Uniform (fun code d => if code = 0x12 then some (List.replicate 32 (UInt8.ofNat d.length)) else none) := by
+  intro code d; by_cases h : code = 0x12 <;> simp [h]
 
 /-- the statistics are order-insensitive where they should be, and exact on small cases (sanity) -/
 example : (expectedStats 1 {} [] [⟨⟨1, 0x55, 0, [1]⟩, [1]⟩, ⟨⟨1, 0x71, 0, []⟩, []⟩] 0).blockCount = 2 ∧
